@@ -4,17 +4,23 @@
 patch="$1"; shift
 cd /repo || exit 2
 if ! git diff --quiet; then echo "refusing: /repo has uncommitted changes"; exit 2; fi
-if ! git apply --check "$patch" 2>/dev/null; then echo "APPLY-FAILED $patch"; exit 3; fi
-git apply "$patch"
+if git apply --check "$patch" 2>/dev/null; then
+  git apply "$patch"
+elif patch -p1 --dry-run --fuzz=3 -s < "$patch" >/dev/null 2>&1; then
+  # context moved because of later hook/fix commits: apply with fuzz
+  patch -p1 --fuzz=3 -s < "$patch"
+else
+  echo "APPLY-FAILED $patch"; exit 3
+fi
 for id in "$@"; do
-  out=$(cd /verif && VERIF_BUDGET_S=${VERIF_BUDGET_S:-60} ./check "$id" --tier "${TIER:-quick}" 2>&1); rc=$?
+  out=$(cd /verif && VERIF_BUDGET_S=${VERIF_BUDGET_S:-60} timeout 900 ./check "$id" --tier "${TIER:-quick}" 2>&1); rc=$?
   case $rc in
     0) echo "MISSED $id $patch" ;;
     1) echo "CAUGHT $id $patch :: $(echo "$out" | grep -m2 '^violation class' | tr '\n' ' ')" ;;
     *) echo "HARNESS-ERROR($rc) $id $patch :: $(echo "$out" | tail -3 | tr '\n' ' ')" ;;
   esac
 done
-git -C /repo checkout -- . && git -C /repo clean -fdq -- . >/dev/null 2>&1
+git -C /repo checkout -- . && git -C /repo clean -fdq -- . >/dev/null 2>&1; find /repo -name '*.orig' -newer "$patch" -delete 2>/dev/null
 # evidence files were rewritten by the mutant runs: restore the committed ones
 cd /verif && git checkout -- evidence 2>/dev/null
 exit 0
